@@ -47,18 +47,30 @@ def top : Glyph :=
 
 def world3 : World := { glyphs := [("base", base), ("comp", composite), ("top", top)] }
 
-/-- a history that reads the composites (filling every cache), edits the base glyph in several
-ways (point edit, move, reversal, deletion, re-adding, renaming) and reads the composites again -/
+/-- a history that reads the composite `top` (filling every cache), edits the glyphs it is built on
+in several ways (point edit, move, reversal, a new transformation, deletion, re-adding, renaming, a
+new base) and reads `top` again after each edit -/
 def xhistory : List XOp :=
   [.base (.newGlyph "base" base), .base (.newGlyph "comp" composite), .base (.newGlyph "top" top),
    .base (.gBounds "top"), .base (.gCpb "top"), .base (.gArea "top"), .base (.kBounds "comp" 0),
-   .cSetPoint "base" 1 2 (125 / 2) (-30), .base (.gBounds "top"), .base (.gMargins "comp"),
-   .base (.cMove "base" 0 3 (1 / 2)), .base (.kBounds "top" 0), .base (.gArea "top"),
+   .cSetPoint "base" 1 2 (725 / 2) (-30), .base (.gBounds "top"), .base (.gMargins "comp"),
+   .base (.cMove "base" 0 3 (1 / 2)), .base (.gBounds "top"), .base (.gArea "top"),
    .base (.cReverse "base" 1), .base (.gArea "comp"),
    .kSetT "top" 0 ⟨-1, 0, 0, 2, 0, 5⟩, .base (.gBounds "top"),
    .gDelete "base", .base (.gBounds "top"), .base (.newGlyph "base" { contours := [{ points := square }] }),
    .base (.gBounds "top"), .gRename "base" "other", .base (.gBounds "top"), .base (.setLeft "top" 7),
    .base (.gMargins "top"), .kSetBase "comp" 0 "other", .base (.gBounds "top")]
+
+/-- the boxes among a list of answers -/
+def boxes (l : List Res) : List (Option Box) :=
+  l.filterMap (fun r => match r with
+    | .box b => some b
+    | _ => none)
+
+def noErr (l : List Res) : Bool :=
+  l.all (fun r => match r with
+    | .err _ => false
+    | _ => true)
 
 end Ex
 
